@@ -178,12 +178,15 @@ void PoolWakeState::wakeAll() {
   // its data.running() check but before enterSleep() (which sets the bit).
   // Without the bump, such a thread enters waitFor with a stale epoch and
   // blocks until timeout — causing slow shutdown.
+  //
+  // The futex wake is issued unconditionally.  sleepMask cannot be trusted to say that nobody is
+  // parked: a claimer clears a thread's bit before waking the group's shared futex, and the kernel
+  // may hand that wake to a different waiter of the group, leaving the claimed thread parked with
+  // its bit clear.  Skipping the syscall for such a group made shutdown, resize() and
+  // setSignalingWake() wait for the sleep backstop.  This is a cold path; one syscall per group
+  // is irrelevant.
   for (int32_t g = 0; g < numGroups_; ++g) {
-    if (groupStates_[static_cast<size_t>(g)].sleepMask.load(std::memory_order_relaxed)) {
-      waiterFor(g * groupSize_).bumpAndWakeAll();
-    } else {
-      waiterFor(g * groupSize_).bump();
-    }
+    waiterFor(g * groupSize_).bumpAndWakeAll();
   }
 }
 
